@@ -51,10 +51,14 @@ SCHEMA_FAULTS = {
     "enum_default_is_list": {"type": "string", "enum": ["asc", "desc"], "default": ["asc"]},
     "string_default_is_object": {"type": "string", "format": "uuid", "default": {"a": 1}},
     "tuple_with_bad_slot": {"type": "array", "prefixItems": [{"type": "string"}, {"type": "array"}]},
+    "allof_remote_ref": {"allOf": [{"$ref": "other.yaml#/components/schemas/ZzRemote"}, {"type": "object", "properties": {"x": {"type": "string"}}}]},
+    "allof_dangling_ref": {"allOf": [{"$ref": "#/components/schemas/ZzNope"}, {"type": "object", "properties": {"x": {"type": "string"}}}]},
+    "float_enum": {"type": "number", "enum": [1.5, 2.5]},
+    "array_of_float_enum": {"type": "array", "items": {"enum": [1.5, True]}},
 }
 _NUM = ["One", "Two", "Six", "Ten", "Uno", "Due"]
 OP_FAULTS = ["optional_path_param", "duplicate_param", "unparseable_body", "unsupported_body_only", "invalid_status",
-             "response_dangling_ref", "param_bad_schema", "param_dangling_ref"]
+             "response_dangling_ref", "param_bad_schema", "param_dangling_ref", "header_union_with_array", "param_ref_chain"]
 
 
 @st.composite
@@ -254,6 +258,17 @@ def apply(doc, ir, ins) -> tuple[dict, list]:
                 o.setdefault("parameters", []).append({"name": f"zzBadParam{x['n']}", "in": "query", "schema": {"type": "array"}})
             elif f == "param_dangling_ref":
                 o.setdefault("parameters", []).append({"$ref": "#/components/parameters/ZzNope"})
+            elif f == "header_union_with_array":
+                o.setdefault("parameters", []).append({"name": f"X-Zz-Bad{x['n']}", "in": "header",
+                                                       "schema": {"oneOf": [{"type": "array", "items": {"type": "string"}}, {"type": "integer"}]}})
+            elif f == "cookie_array":
+                o.setdefault("parameters", []).append({"name": f"zzBadCookie{x['n']}", "in": "cookie", "schema": {"type": "array", "items": {"type": "string"}}})
+            elif f == "param_ref_chain":
+                # a component parameter that is itself a reference to another one
+                cp = d.setdefault("components", {}).setdefault("parameters", {})
+                cp["ZzRealParam"] = {"name": "zzreal", "in": "query", "schema": {"type": "string"}}
+                cp[f"ZzAliasParam{'ABC'[x['n'] % 3]}"] = {"$ref": "#/components/parameters/ZzRealParam"}
+                o.setdefault("parameters", []).append({"$ref": "#/components/parameters/" + f"ZzAliasParam{'ABC'[x['n'] % 3]}"})
             hosts.append(("op", x["host"]))
     return d, hosts
 
